@@ -1647,6 +1647,29 @@ def resolve_promoted(fn, o):
     return Origin(o.k, o.a, [resolve_promoted(fn, k) for k in o.kids], o.bb)
 
 
+def const_eval(o):
+    """value of an origin that is arithmetic on integer literals (`1 << 20`), else None"""
+    s = o.strip()
+    if s.k == "const" and isinstance(s.a.get("v"), int) and not isinstance(s.a.get("v"), bool):
+        return s.a["v"]
+    if s.k == "field" and str(s.a) == "0" and s.kids:
+        return const_eval(s.kids[0])
+    if s.k == "cast" and s.kids:
+        return const_eval(s.kids[0])
+    if s.k == "bin" and len(s.kids) == 2:
+        a, b = const_eval(s.kids[0]), const_eval(s.kids[1])
+        if a is None or b is None:
+            return None
+        op = str(s.a).replace("WithOverflow", "").replace("Unchecked", "")
+        if op == "Shl" and 0 <= b < 64:
+            return a << b
+        if op == "Mul":
+            return a * b
+        if op == "Add":
+            return a + b
+    return None
+
+
 def flatten_phi(o):
     """alternatives of a value (phi nodes at the top, through refs/derefs)"""
     s = o
